@@ -1125,9 +1125,19 @@ def _reaches(fn, a, b):
 
 # ------------------------------------------------------------------------------------------ Compressed: SENTINEL, SUPPORT-ORDER
 def _const(fn, i):
-    i = fn.strip(i, casts=True)
-    nd = fn.n(i)
-    return int(nd['v']) if 'v' in nd else None
+    # the evaluated value sits on the outermost rvalue (a reference to a constexpr variable has it on its lvalue-to-rvalue cast)
+    while i:
+        nd = fn.n(i)
+        if 'v' in nd:
+            return int(nd['v'])
+        j = fn.strip(i, casts=True)
+        if j == i:
+            if nd['c'] in ('ImplicitCastExpr', 'ParenExpr') and nd['ch']:
+                j = nd['ch'][0]
+            else:
+                break
+        i = j
+    return None
 
 
 def rule_compressed_level(ctx, units=None):
@@ -1541,6 +1551,8 @@ def rule_table_width(ctx, units=None):
             elif l and isinstance(l[0], tuple):
                 b = bounds.get(i, {}).get(l[0])
                 c = None if b is None else b + l[1]
+            if c is None and _iterator_offset_in_range(f, v, ('field', 'segments', THIS)):
+                c = 0       # distance(segments.begin(), it) with it confined to [segments.begin(), segments.end()]
             req = f"every value stored in a cell fits its width BIT_WIDTH(segments.size(){cw:+d})" if cw else 'every value stored in a cell fits its width BIT_WIDTH(segments.size())'
             if c is None and l and isinstance(l[0], tuple) and l[0] in widened:
                 obs.append(Ob('TABLE-WIDTH', f, i, req, f"`{fmt_term(v)[:50]}` is incremented around a loop without a guard against segments.size()", VIOLATED, arm='store'))
@@ -1552,6 +1564,49 @@ def rule_table_width(ctx, units=None):
                 obs.append(Ob('TABLE-WIDTH', f, i, req, f"`{fmt_term(v)[:50]}` can be segments.size(){c:+d}, which needs one more bit than BIT_WIDTH(segments.size(){cw:+d}) whenever it is a power of two: the cell is truncated",
                               VIOLATED, arm='store'))
     return obs
+
+
+def _iterator_offset_in_range(f, v, cont):
+    """v is std::distance(cont.begin(), it) (or it - cont.begin()) for a local iterator `it` all of whose definitions keep it inside
+    [cont.begin(), cont.end()]: cont.begin(), std::next(cont.begin()), or the result of a standard search whose range ends at
+    cont.end() and starts at such an iterator.  Then 0 <= v <= cont.size()."""
+    BEGIN = lambda t: t[0] == 'call' and str(t[1]).endswith(('::begin', '::cbegin')) and _strip_cast(t[3]) == cont
+    END = lambda t: t[0] == 'call' and str(t[1]).endswith(('::end', '::cend')) and _strip_cast(t[3]) == cont
+    v = _strip_cast(v)
+    if v[0] == 'call' and v[1] == 'std::distance' and len(v[2]) == 2:
+        a, it = _strip_cast(v[2][0]), _strip_cast(v[2][1])
+    elif v[0] == 'op' and len(v) == 4 and v[1] == '-':
+        it, a = _strip_cast(v[2]), _strip_cast(v[3])
+    else:
+        return False
+    if not BEGIN(a) or it[0] != 'local' or len(it) != 3:
+        return False
+    vid = it[2]
+    d = f.defs.get(vid)
+    if not d or not d.get('init'):
+        return False
+
+    def inside(t, depth=0):
+        t = _strip_cast(t)
+        if t == it or BEGIN(t) or END(t):
+            return True
+        if t[0] == 'call' and t[1] in ('std::next',) and (len(t[2]) == 1 or (len(t[2]) == 2 and _strip_cast(t[2][1]) in (('lit', 1), ('lit', 0)))):
+            return BEGIN(_strip_cast(t[2][0]))       # begin()+1 <= end() needs a non-empty container: segments always has one
+        if t[0] == 'call' and t[1] in ('std::find_if', 'std::find', 'std::find_if_not', 'std::lower_bound', 'std::upper_bound', 'std::partition_point') and len(t[2]) >= 2:
+            return inside(t[2][0], depth + 1) and END(_strip_cast(t[2][1]))
+        return False
+    if not inside(f.term(d['init'], inline=False)):
+        return False
+    for w in d['writes']:
+        nd = f.n(w)
+        rhs = None
+        if nd['c'] == 'CXXOperatorCallExpr' and nd.get('op') == '=' and len(nd.get('args', [])) == 2:
+            rhs = nd['args'][1]
+        elif nd['c'] == 'BinaryOperator' and nd['op'] == '=':
+            rhs = nd['ch'][1]
+        if rhs is None or not inside(f.term(rhs, inline=False)):
+            return False
+    return not d.get('captured_byref')
 
 
 # ------------------------------------------------------------------------------------------ Bucketing: BUCKET-AGREE
@@ -1597,7 +1652,7 @@ def rule_bucket_agree(ctx, units=None):
                 cb = _const(b, nd['ch'][1])
             ok = cq is not None and cq == cb
             obs.append(Ob('BUCKET-AGREE', q, qsite[0], 'bucket = (key - first_key) >> s with step = 1 << s for the same s',
-                          f"query shifts by {cq}, build uses step = 1 << {cb}", OK if ok else VIOLATED, arm='pow2'))
+                          f"query shifts by {cq}, build uses step = 1 << {cb}", OK if ok else (UNDECIDED if cq is None or cb is None else VIOLATED), arm='pow2'))
         else:
             ok = _strip_cast(qsite[3][3]) == STEP
             obs.append(Ob('BUCKET-AGREE', q, qsite[0], 'bucket = (key - first_key) / step with the step computed at build time',
@@ -1622,16 +1677,25 @@ def rule_bucket_agree(ctx, units=None):
                     mo = [i]
                     whyb = (f"boundary = {fmt_term(b.term(i, inline=False))} evaluated in {rt['s']} for {kt['s'] if kt else '?'} keys: " +
                             ('cannot wrap' if wide else 'wraps when the key span approaches the range of the key type, emptying the last buckets'))
-        cmpok = False
-        for i in b.all_ids():
-            nd = b.n(i)
-            if nd['c'] == 'BinaryOperator' and nd['op'] == '<' and reachable(b, i):
-                t = b.term(i, inline=False)
-                l = _strip_cast(t[2])
-                if l[0] == 'op' and l[1] == '-' and _strip_cast(l[3]) == FIRST_KEY and contains(l[2], ('field', 'segments', THIS)):
-                    cmpok = True
+        # the comparison of a segment key against the boundary: in the fill loop or in a closure handed to an algorithm (find_if)
+        cmpok = None
+        scopes = [b] + [g for g in b.unit.functions.values() if g.d.get('parent_fn') == b.id and g.body]
+        for g in scopes:
+            for i in g.all_ids():
+                nd = g.n(i)
+                if nd['c'] == 'BinaryOperator' and nd['op'] in ('<', '>=', '>', '<=') and (g is not b or reachable(b, i)):
+                    t = g.term(i, inline=False)
+                    for side in (t[2], t[3]):
+                        l = _strip_cast(side)
+                        if not any(isinstance(x, tuple) and x and x[0] == 'field' and x[1] == 'key' for x in subterms(l)):
+                            continue
+                        if l[0] == 'op' and l[1] == '-' and _strip_cast(l[3]) == FIRST_KEY:
+                            cmpok = True if cmpok is None else cmpok
+                        else:
+                            cmpok = False
+        st = OK if (okb and cmpok) else (UNDECIDED if (okb and cmpok is None) else VIOLATED)
         obs.append(Ob('BUCKET-AGREE', b, mo[0] if mo else 0, 'bucket boundaries are i*step compared against segment.key - first_key',
-                      whyb + f"; rebased comparison present={cmpok}", OK if (okb and cmpok) else VIOLATED, arm='fill'))
+                      whyb + f"; rebased comparison present={cmpok}", st, arm='fill'))
         # slice = [top_level[j], top_level[j+1])
         sl = [c for c in q.calls(pred=lambda nd: nd.get('ct') in kinds.UPPER) if reachable(q, c)]
         oks = False
